@@ -74,6 +74,7 @@ def lists(pe):
     out['mixture'] = [prim(pe, {'A|r1': 'c12', 'A|r2': 'ev'}, 'x0') * cv1, prim(pe, {'A|r2': 'od'}, 'x1', 'count'), prim(pe, {'B|r1': 'trA'}, 'x2') * cv3[1],
                       prim(pe, {'A|r1': 'sh'}, 'x3') + prim(pe, {'B|r1': 'trB'}, 'x4')]
     out['bare-name'] = [prim(pe, {'A': 'c8'}, 'bn0'), prim(pe, {'A': 'irr'}, 'bn1')]
+    out['long-ensemble-names'] = [prim(pe, {'ENS|r1': 'c12', 'ENS|r2': 'c8'}, 'ln0'), prim(pe, {'ENS|r2': 'irr'}, 'ln1'), prim(pe, {'OTHER|cfg7': 'ev'}, 'ln2')]
     # an observable that is constant on one whole replica (all 0, all 3) while it fluctuates on another one
     r = alpha.rng('c12', 'const-rep')
     c8, ev, c12 = list(alpha.CFG['c8']), list(alpha.CFG['ev']), list(alpha.CFG['c12'])
@@ -117,7 +118,7 @@ def name_map(mode, names):
         elif mode is None or mode is False:
             exp[n] = flat
         elif isinstance(mode, int):
-            exp[n] = flat[:mode] + '|' + flat[mode:]
+            exp[n] = flat[:mode] + '|' + flat[mode:]      # also for 0: the separator in front (True / False were handled above)
         elif isinstance(mode, str):
             exp[n] = flat.replace(mode, '|' + mode)
     return exp
@@ -162,16 +163,18 @@ def same(a, b, nm, pe):
     return None
 
 
-MODES = [True, None, False, 1, 'r']
+MODES = [True, None, False, 1, 'r', 2, 0]
 
 
 def build(tier, seed):
     cases = [{'kind': 'dobs', 'list': k} for k in ['single', 'same-layout', 'nested', 'interleaved', 'disjoint', 'replica-subsets', 'two-ensembles',
-                                                   'cov', 'cov-shared', 'count-zeros', 'sample-equals-mean', 'big-strided', 'mixture', 'bare-name', 'constant-on-replica']]
+                                                   'cov', 'cov-shared', 'count-zeros', 'sample-equals-mean', 'big-strided', 'mixture', 'bare-name', 'constant-on-replica', 'long-ensemble-names']]
     cases += [{'kind': 'pobs', 'list': k} for k in ['single', 'three', 'replicas', 'count-zeros', 'big', 'bare-name']]
     # pobs files whose observables differ in their configuration lists / replica sets: the format has one configuration
     # column per replica, so such a list is either refused on export or comes back faithfully - never re-labelled
     cases.append({'kind': 'pobs-pairs'})
+    # call history of the readers: files that share covariance names / base names but differ in content, read one after the other
+    cases.append({'kind': 'file-sequence'})
     ks = (2, 3) if tier == 'quick' else (2, 3, 4)
     for k in ks:
         combos = list(itertools.combinations(range(17), k))
@@ -192,6 +195,8 @@ def run_case(case):
                 run_combos(pe, acc, case)
             elif case['kind'] == 'pobs-pairs':
                 run_pobs_pairs(pe, acc, case, d)
+            elif case['kind'] == 'file-sequence':
+                run_file_sequence(pe, acc, case, d)
             else:
                 run_pobs(pe, acc, case, d)
     finally:
@@ -201,16 +206,19 @@ def run_case(case):
 
 def run_dobs(pe, acc, case, d):
     ol = lists(pe)[case['list']]
-    for mode in MODES:
-        for via in ('string', 'gz', 'plain'):
+    # every separator mode, then every mode again in reversed order (True / 1 and False / 0 are equal as dictionary keys:
+    # the treatment must depend on the mode passed to THIS call, not on the one seen first)
+    for mi, mode in enumerate(MODES + MODES[::-1]):
+        for via in (('string', 'string-str', 'gz', 'plain') if mi < len(MODES) else ('string',)):
             if 'mode' in case and (case['mode'], case['via']) != (repr(mode), via):
                 continue
             sub = dict(case, mode=repr(mode), via=via)
             sig = 'dobs:%s' % case['list']
             try:
-                if via == 'string':
+                if via in ('string', 'string-str'):
                     s = pe.input.dobs.create_dobs_string(ol, 'name', symbol=[])
-                    back = pe.input.dobs.import_dobs_string(s.encode('utf-8'), separator_insertion=mode)
+                    # the string as returned by the writer (documented argument type), and its utf-8 bytes
+                    back = pe.input.dobs.import_dobs_string(s if via == 'string-str' else s.encode('utf-8'), separator_insertion=mode)
                 else:
                     fn = os.path.join(d, 'f')
                     pe.input.dobs.write_dobs(ol, fn, 'name', gz=(via == 'gz'))
@@ -236,7 +244,7 @@ def run_dobs(pe, acc, case, d):
                 m = 'False' if mode is False else 'other'
                 acc.fail(sig, sub, 'list %s mode %r via %s: %s' % (case['list'], mode, via, bad))
             else:
-                acc.ok((case['list'], repr(mode), via), case['list'] != 'single', 'dobs-roundtrip')
+                acc.ok((case['list'], repr(mode), via, mi >= len(MODES)), case['list'] != 'single', 'dobs-roundtrip')
     acc.sample({'kind': 'dobs', 'list': case['list'], 'modes': [repr(m) for m in MODES], 'via': ['string', 'gz', 'plain']})
 
 
@@ -283,6 +291,62 @@ def run_pobs(pe, acc, case, d):
         except Exception:
             acc.ok(('pobs-ref', case['list'], nm), True, 'refused')
     acc.sample({'kind': 'pobs', 'list': case['list'], 'modes': ['None', '1', "'r'"]})
+
+
+def run_file_sequence(pe, acc, case, d):
+    rd = pe.input.dobs
+    # (a) the same covariance name and dimension with different matrices in different files (dimension 1..3), every order
+    for dim in (1, 2, 3):
+        mats = [np.array(alpha.cov_matrix(dim, True, 'fs%d' % k)) * (1.0 + 0.7 * k) for k in range(3)]
+        sets = []
+        for k, M in enumerate(mats):
+            cl = pe.cov_Obs([0.9 + 0.1 * i for i in range(dim)] if dim > 1 else 0.9, M if dim > 1 else float(M[0, 0]), 'cvshared')
+            cl = cl if dim > 1 else [cl]
+            sets.append([prim(pe, {'A|r1': 'c12'}, ('fs', dim, k)) * cl[0] + (cl[dim - 1] if dim > 1 else 0.0), cl[0] * 1.5])
+        for order in itertools.permutations(range(3)):
+            for via in ('string', 'file'):
+                bad = None
+                for pos, k in enumerate(order):
+                    try:
+                        if via == 'string':
+                            back = rd.import_dobs_string(rd.create_dobs_string(sets[k], 'n').encode(), separator_insertion=1)
+                        else:
+                            fn = os.path.join(d, 'seq')
+                            rd.write_dobs(sets[k], fn, 'n', gz=False)
+                            back = rd.read_dobs(fn, gz=False, separator_insertion=1)
+                            os.remove(fn + '.xml')
+                        for a, b in zip(sets[k], back):
+                            bad = bad or same(a, b, name_map(1, list(a.deltas)), pe)
+                    except Exception as e:
+                        bad = 'raised %s: %s' % (type(e).__name__, e)
+                    if bad:
+                        bad = 'file %d read as number %d of the order %s (%s): %s' % (k, pos + 1, list(order), via, bad)
+                        break
+                if bad:
+                    acc.fail('dobs:file-sequence:covariance', dict(case, dim=dim, order=list(order), via=via), 'covariance input of dimension %d with the same name in three files: %s' % (dim, bad))
+                else:
+                    acc.ok(('fseq-cov', dim, order, via), True, 'file-sequence')
+    # (b) the same base name written compressed and uncompressed with different content, every order of writing, both reads
+    a = [prim(pe, {'A|r1': 'c12'}, 'fsA', mean=1.0)]
+    b = [prim(pe, {'A|r1': 'c12'}, 'fsB', mean=5.0)]
+    for fmt in ('pobs', 'dobs'):
+        wr = rd.write_pobs if fmt == 'pobs' else rd.write_dobs
+        re_ = rd.read_pobs if fmt == 'pobs' else rd.read_dobs
+        for first_gz in (False, True):
+            fn = os.path.join(d, 'shadow_%s_%s' % (fmt, first_gz))
+            try:
+                wr(a, fn, 'n', gz=first_gz)
+                wr(b, fn, 'n', gz=not first_gz)
+                got_a = re_(fn, gz=first_gz, separator_insertion=1)
+                got_b = re_(fn, gz=not first_gz, separator_insertion=1)
+                bad = same(a[0], got_a[0], name_map(1, ['A|r1']), pe) or same(b[0], got_b[0], name_map(1, ['A|r1']), pe)
+            except Exception as e:
+                bad = 'raised %s: %s' % (type(e).__name__, e)
+            if bad:
+                acc.fail('%s:file-sequence:gz-sibling' % fmt, dict(case, fmt=fmt, first_gz=first_gz), '%s files <name>.xml and <name>.xml.gz with different content: reading with gz=%s / gz=%s does not return the file asked for: %s' % (fmt, first_gz, not first_gz, bad))
+            else:
+                acc.ok(('fseq-gz', fmt, first_gz), True, 'file-sequence')
+    acc.sample({'kind': 'file-sequence', 'parts': ['same covariance name in three files, every order', 'xml and xml.gz siblings']})
 
 
 def run_pobs_pairs(pe, acc, case, d):
